@@ -95,6 +95,16 @@ def twins(tier, seed):
                 mk = (lambda lo: bool_field("x", lo, array=arr(K, stride if stride != w else None, w))) if w == 1 else (lambda lo: uint_field("x", [(lo, lo + w - 1)], array=arr(K, stride if stride != w else None, w)))
                 add(_case("x", N, [mk(lo_ok)]), _case("x", N, [mk(lo_bad)]), "beyond-base-width",
                     "contiguous array whose last element passes bit N-1, %s, %s" % (where, "native base" if N in NATIVE else "arbitrary-int base"), "array")
+        # arrays that lie entirely above the base width
+        for first in sorted({N, N + 8, S}):
+            if first > 190:
+                continue
+            where = "inside the storage integer" if first + 1 < S else "beyond the storage integer"
+            add(_case("x", N, [bool_field("x", N - 2, array=arr(2, None, 1))]), _case("x", N, [bool_field("x", first, array=arr(2, None, 1))]), "beyond-base-width",
+                "bool array lying entirely above bit N-1, %s, %s" % (where, "native base" if N in NATIVE else "arbitrary-int base"), "array")
+        if N >= 8:
+            add(_case("x", N, [uint_field("x", [(N - 4, N - 3)], array=arr(2, 2))]), _case("x", N, [uint_field("x", [(N + 4, N + 5)], array=arr(2, 2))]), "beyond-base-width",
+                "u2 array lying entirely above bit N-1, %s" % ("native base" if N in NATIVE else "arbitrary-int base"), "array")
         if N >= 8:
             # list array: elements [(0,0),(2,2)] stride 1; K chosen so that the last element ends at N-1 / N
             def la(lo, K):
@@ -154,6 +164,21 @@ def twins(tier, seed):
             pos = uint_field("x", [(0, 3)])
             neg = dict(pos, stride_on_scalar=4)
             add(_case("x", N, [pos]), _case("x", N, [neg]), "stride-on-scalar", "stride on a non-array field, %s" % bc, "uint")
+        # --- the same rules with the arguments written in another order (the attribute parser is order-agnostic) ---
+        if N >= 16:
+            for order, oname in ((("stride", "range", "access"), "stride, range, access"), (("access", "stride", "range"), "access, stride, range"), (("range", "stride", "access"), "range, stride, access")):
+                def attr(rng, acc, stride):
+                    parts = dict(range=rng, access=acc, stride="stride = %d" % stride)
+                    return "#[bits(%s)]" % ", ".join(parts[k] for k in order)
+                pos = dict(uint_field("x", [(0, 3)], array=arr(3, 4)), attr_text=attr("0..=3", "rw", 4))
+                neg = dict(uint_field("x", [(0, 3)], array=arr(3, 2)), attr_text=attr("0..=3", "rw", 2))
+                add(_case("x", N, [pos]), _case("x", N, [neg]), "stride<width", "stride below the element width, arguments ordered %s, %s" % (oname, bc), "array")
+                neg = dict(uint_field("x", [(N - 7, N - 4)], array=arr(3, 4)), attr_text=attr("%d..=%d" % (N - 7, N - 4), "rw", 4))
+                pos = dict(uint_field("x", [(N - 12, N - 9)], array=arr(3, 4)), attr_text=attr("%d..=%d" % (N - 12, N - 9), "rw", 4))
+                add(_case("x", N, [pos]), _case("x", N, [neg]), "beyond-base-width", "array passing bit N-1, arguments ordered %s, %s" % (oname, bc), "array")
+            pos = dict(uint_field("x", [(0, 3)]), attr_text="#[bits(rw, 0..=3)]")
+            neg = dict(_retype(uint_field("x", [(0, 3)]), 5), attr_text="#[bits(rw, 0..=3)]")
+            add(_case("x", N, [pos]), _case("x", N, [neg]), "type-width-mismatch", "type wider than the range, access written before the range, %s" % bc, "uint")
         # --- lo > hi ---
         if N >= 8:
             pos = uint_field("x", [(3, 5)])
@@ -172,6 +197,14 @@ def twins(tier, seed):
                 pos = uint_field("x", [(0, 1), (3, 3)], array=arr(2, 8))
                 neg = dict(uint_field("x", [(0, 1)], array=arr(2, 8)), ranges=[(0, 1), (4, 3)], form="list", attr_text="#[bits([0..=1, 4..=3], rw, stride = 8)]")
                 add(_case("x", N, [pos]), _case("x", N, [neg]), "lo>hi", "empty reversed range inside a list array, %s" % bc, "list-array")
+    # --- the same field text under a base of the same storage class that is too narrow for it ---
+    for S_, narrow in ((8, 7), (16, 9), (32, 24), (32, 17), (64, 33), (64, 63), (128, 65), (128, 127)):
+        fields = [lambda: uint_field("tag", [(S_ - 8, S_ - 1)]) if S_ >= 16 else uint_field("tag", [(S_ - 1, S_ - 1)]),
+                  lambda: bool_field("flag", S_ - 1),
+                  lambda: uint_field("arr", [(0, 0)], array=arr(S_, None, 1)),
+                  lambda: uint_field("li", [(S_ - 1, S_ - 1), (0, 1)])]
+        for mk in fields:
+            add(_case("x", S_, [mk()]), _case("x", narrow, [mk()]), "beyond-base-width", "field text valid for u%d reused under u%d (same storage integer)" % (S_, narrow), "same-tokens")
     # --- unsupported bases ---
     pos = _case("x", 32, [bool_field("x", 0)])
     for bt in ("u0", "u129", "u200", "i32", "usize", "u256", "bool"):
@@ -258,6 +291,17 @@ def enum_twins(tier, seed):
                     e["variants"][pos_] = dict(e["variants"][pos_], pre_attrs=["/// documented variant"])
                     return e
                 add(mk2("conditional"), mk2("true"), "cfg-without-conditional", "exhaustive = true with a compiled-out, documented cfg variant at position %d" % pos_)
+    # conditional enums listing more than 2^N variants: an out-of-range discriminant beyond index 2^N-1
+    for n in (1, 2, 3):
+        space = 1 << n
+        full = list(range(space))
+        pos = make_enum("E", n, full + [space - 1], "conditional", cfg=[None] * space + [False], names=["V%d" % k for k in range(space)] + ["Twin"])
+        neg = make_enum("E", n, full + [space], "conditional")
+        add(pos, neg, "discriminant>=2^N", "conditional, 2^N+1 variants, the last one = 2^N")
+        neg = make_enum("E", n, full + [space - 1, space + 3], "conditional", cfg=[None] * space + [False, None], names=["V%d" % k for k in range(space)] + ["Twin", "Big"])
+        add(pos, neg, "discriminant>=2^N", "conditional, 2^N+2 variants, the last one > 2^N")
+        neg = make_enum("E", n, full + [space + 1], "conditional", cfg=[None] * space + [False])
+        add(pos, neg, "discriminant>=2^N", "conditional, compiled-out extra variant > 2^N")
     for n in edges:
         space = 1 << n
         add(make_enum("E", n, [0, space - 1], "false"), make_enum("E", n, [0, space], "false"), "discriminant>=2^N", "discriminant = 2^N, exhaustive = false") if n < 64 else None
